@@ -289,6 +289,48 @@ theorem C20_no_sort_panic (i : ScanIn) : (scanTail i).panics = false := by
     cases h : sortKey f <;> simp_all
   simp [this]
 
+/-! ### the gate in front of the phases -/
+
+/-- GATE. `Scan` runs its phases — hence any detector at all — exactly when the specification's four conditions hold, and then the
+result is the one of `scanTail` (to which every theorem above applies). -/
+theorem C20_gate_runs_iff (e v : Bool) (n : Nat) (p : Bool) (i : ScanIn) :
+    (∃ o, scanHead (preCheck e v n p) i = .ok o) ↔ Runs e v n p := by
+  unfold Runs preCheck scanHead
+  rcases Nat.eq_zero_or_pos n with h | h
+  · subst h; cases e <;> cases v <;> cases p <;> simp
+  · have hn : n ≠ 0 := by omega
+    by_cases h1 : 1 < n
+    · have hne : n ≠ 1 := by omega
+      cases e <;> cases v <;> cases p <;> simp [hn, h1, h, hne]
+    · have he : n = 1 := by omega
+      subst he
+      cases e <;> cases v <;> cases p <;> simp
+
+/-- …and otherwise NOTHING runs: the outcome is the bare error (no `ScanOut`, so no detector call, no finding, no package, no plugin
+status), and the error is the first unmet condition in the order enable, requirements, roots, files. -/
+theorem C20_gate_blocked (e v : Bool) (n : Nat) (p : Bool) (i : ScanIn) (h : ¬ Runs e v n p) :
+    ∃ err, scanHead (preCheck e v n p) i = .error err ∧ specReason e v n p = some err := by
+  unfold Runs at h
+  unfold preCheck scanHead specReason
+  rcases Nat.eq_zero_or_pos n with h0 | h0
+  · subst h0; cases e <;> cases v <;> cases p <;> simp
+  · have hn : n ≠ 0 := by omega
+    by_cases h1 : 1 < n
+    · have hne : n ≠ 1 := by omega
+      cases e <;> cases v <;> cases p <;> simp_all
+    · have he : n = 1 := by omega
+      subst he
+      cases e <;> cases v <;> cases p <;> simp_all
+
+theorem C20_gate_ok (i : ScanIn) (e v : Bool) (n : Nat) (p : Bool) (h : Runs e v n p) :
+    scanHead (preCheck e v n p) i = .ok (scanTail i) ∧ runsB e v n p = true := by
+  obtain ⟨rfl, rfl, h0, h1⟩ := h
+  unfold preCheck scanHead runsB
+  have hn : n ≠ 0 := by omega
+  cases p
+  · simp [hn, h0]
+  · have := h1 rfl; subst this; simp
+
 /-! ### non-vacuity -/
 
 def exA : Adv := ⟨some (1, [5]), 3⟩
